@@ -16,17 +16,50 @@ pub struct Case {
     pub obj: ObjSpec,
     pub source: SourceSpec,
     pub step_ms: u64,
+    /// > 0: the object is carouselled (delay 10 ms between transfers) and the run records this many
+    /// complete transfers before it stops; 0: no carousel, the run ends when the object is gone
+    #[serde(default)]
+    pub carousel_transfers: u8,
 }
 
 fn run_with(c: &Case, source: &SourceSpec) -> Result<(Vec<Vec<u8>>, Option<Vec<StreamOp>>, usize), String> {
     let mut drv = SenderDriver::new(&c.sender)?;
     let mut o = c.obj.clone();
     o.source = source.clone();
+    if c.carousel_transfers > 0 {
+        o.carousel = Some(CarouselSpec::DelayMs(10));
+    }
     let (_toi, _bytes) = drv.add(&o).map_err(|e| if e.contains("incompatible with the parameters of your OTI") { format!("REFUSED: {}", e) } else { e })?;
     if c.sender.full_fdt {
         drv.publish()?;
     }
-    drv.run_until_empty(Duration::from_millis(c.step_ms.max(1)), 5000, 200_000)?;
+    if c.carousel_transfers == 0 {
+        drv.run_until_empty(Duration::from_millis(c.step_ms.max(1)), 5000, 200_000)?;
+    } else {
+        // a carousel never ends by itself: record the wanted number of complete transfers
+        let (mut polls, mut pkts) = (0usize, 0usize);
+        loop {
+            let stops = drv.log.iter().filter(|r| matches!(r.kind, RecKind::Stop(_))).count();
+            if stops >= c.carousel_transfers as usize {
+                break;
+            }
+            match drv.read() {
+                Some(_) => {
+                    pkts += 1;
+                    if pkts > 400_000 {
+                        return Err(format!("more than {} packets without {} transfers ending", pkts, c.carousel_transfers));
+                    }
+                }
+                None => {
+                    polls += 1;
+                    if polls > 20_000 {
+                        return Err(format!("carousel object: only {} of {} transfers ended after {} idle polls", stops, c.carousel_transfers, polls));
+                    }
+                    drv.advance(Duration::from_millis(c.step_ms.max(1)));
+                }
+            }
+        }
+    }
     let pk: Vec<Vec<u8>> = drv.log.iter().filter_map(|r| r.pkt().map(|(b, _)| b.clone())).collect();
     let transfers = drv.log.iter().filter(|r| matches!(r.kind, RecKind::Stop(_))).count();
     let log = drv.keep.first().and_then(|k| k.stream_log.as_ref()).map(|l| l.lock().unwrap().clone());
@@ -130,6 +163,7 @@ pub fn run_case(c: &Case, known: &dyn Fn(&str) -> bool) -> CaseResult {
         }
     ));
     info.label_if(c.obj.max_transfer_count > 1, "transfers>=2");
+    info.label_if(c.carousel_transfers > 0, "carousel");
     Ok(info)
 }
 
@@ -144,11 +178,12 @@ pub fn case_strategy(tier: Tier) -> BoxedStrategy<Case> {
         3 => proptest::collection::vec(1usize..120, 1..8).prop_map(SourceSpec::Chunked),
         1 => Just(SourceSpec::Chunked(vec![1])),
     ];
-    (gen::session_strategy(gen::SenderOpts::default(), oo, 1), source, prop_oneof![Just(1u64), Just(100), Just(1000)])
-        .prop_map(|((sender, mut objs), source, step_ms)| {
+    (gen::session_strategy(gen::SenderOpts::default(), oo, 1), source, prop_oneof![Just(1u64), Just(100), Just(1000)], prop_oneof![3 => Just(0u8), 1 => 2u8..6])
+        .prop_map(|((sender, mut objs), source, step_ms, carousel_transfers)| {
             let mut obj = objs.remove(0);
             obj.cenc = 0;
-            Case { sender, obj, source, step_ms }
+            obj.carousel = None;
+            Case { sender, obj, source, step_ms, carousel_transfers }
         })
         .boxed()
 }
@@ -161,7 +196,7 @@ pub fn run(eng: &mut Engine) {
     eng.generated(
         PartCfg::new(
             "sources",
-            "one object x OTI (5 schemes, E, B, parity, interleave) x 1-3 transfers, sent once from a buffer and once from {cached file, file stream, Cursor, BufReader<File> of capacity 1..8192, harness stream returning fixed small / random / one-byte chunks}; packet sequences must be byte-identical, a seek to 0 must precede every transfer; non-trivial = a read returned fewer bytes than asked before EOF and the object has >= 2 blocks; distinct by case",
+            "one object x OTI (5 schemes, E, B, parity, interleave) x 1-3 transfers (one case in four: carousel mode, 2-5 recorded transfers), sent once from a buffer and once from {cached file, file stream, Cursor, BufReader<File> of capacity 1..8192, harness stream returning fixed small / random / one-byte chunks}; packet sequences must be byte-identical, a seek to 0 must precede every transfer; non-trivial = a read returned fewer bytes than asked before EOF and the object has >= 2 blocks; distinct by case",
             tier.pick(100_000, 2_000_000),
         ),
         move || case_strategy(tier),
